@@ -1656,7 +1656,10 @@ EXPECTED_MODEL_BRANCHES = [
 
 
 def regenerate(ctx):
-    changed, detail = extract_legacy.regenerate()
+    try:
+        changed, detail = extract_legacy.regenerate()
+    finally:
+        ctx.extra['legacy_tables_source'] = dict(extract_legacy.LAST_SOURCE)
     return [('extract(odl/util/ufuncs.py + numpy ufunc table -> Gen/UfuncLegacy.lean)', True,
              ('regenerated; ' if changed else 'unchanged; ') + detail)]
 
@@ -1667,10 +1670,30 @@ def canon_model(ans, via_numpy):
     return ans
 
 
+def build_zoo(ctx):
+    """`import odl` and the construction of the zoo run code of the tree under test (odl's
+    import itself calls x.ufuncs.<name> to build documentation): a failure there is a failing
+    input of the property, not a crash of the checker."""
+    import traceback
+    try:
+        zoo = space_zoo()
+        spaces = {k: ctor() for k, (_, ctor) in zoo.items()}
+        return zoo, spaces
+    except Exception as e:  # noqa
+        tb = traceback.format_exc().strip().split('\n')
+        where = [l.strip() for l in tb if l.strip().startswith('File')][-3:]
+        ctx.violation('import odl / construction of the space zoo raises {}({})'.format(
+            type(e).__name__, msg_tag(e)),
+            '{}: {} :: {}'.format(type(e).__name__, str(e)[:200], ' <- '.join(where))[:600],
+            {'stream': 'import'})
+        return None, None
+
+
 def run(ctx, deep=False):
     thorough = (ctx.tier == 'thorough') or deep
-    zoo = space_zoo()
-    spaces = {k: ctor() for k, (_, ctor) in zoo.items()}
+    zoo, spaces = build_zoo(ctx)
+    if zoo is None:
+        return
     lines, meta = [], []
     skipped = 0
     skip_reasons = {}
@@ -1803,8 +1826,9 @@ def search(ctx, broken):
     run the thorough enumeration of the oracle on the real code."""
     if ctx.tier == 'thorough':
         return
-    zoo = space_zoo()
-    spaces = {k: ctor() for k, (_, ctor) in zoo.items()}
+    zoo, spaces = build_zoo(ctx)
+    if zoo is None:
+        return
     V = Violations(ctx)
     for c in enumerate_cases(ctx, True, zoo):
         try:
@@ -1826,6 +1850,9 @@ def search(ctx, broken):
 
 
 def replay(ctx, case):
+    if case.get('stream') == 'import':
+        z, _ = build_zoo(ctx)
+        return None if z is not None else ctx.violations[-1]['what']
     zoo = space_zoo()
     if case.get('stream') == 'ufunc':
         skey = case['space']
